@@ -11,6 +11,6 @@ def groups(tier):
 
 
 def replay(rec):
-    if rec["replay"].get("group", "").startswith("model["):
+    if rec["replay"].get("group", "").startswith(("model[", "wiring[", "init_spread[")):
         return modelstep.replay("C02", rec)
     return kern.kernel_replay("C02", rec)
